@@ -26,8 +26,8 @@ Inductive pcT :=
 | PStop      (* machine.thread_stopper.is_set()   (loop condition)              *)
 | PWait      (* self._dirty.wait(1)                                             *)
 | PSpin      (* time.sleep(0.2)   inside `while FileManager.is_busy`            *)
-| PClear     (* self._dirty.clear()                                             *)
-| PCopy      (* copy.deepcopy(self.data); then FileManager.save: is_busy = True *)
+| PClear     (* self._dirty.clear(); then the reference self.data is read       *)
+| PCopy      (* copy.deepcopy(<that object>); then FileManager.save: is_busy = True *)
 | POpen      (* open(temp, 'w')            creates / truncates the temp file    *)
 | PW1        (* first half of the text is written and flushed                   *)
 | PW2        (* second half written, file closed                                *)
@@ -47,7 +47,7 @@ Record state := mk {
   dirty : bool;          (* DataManager._dirty                                 *)
   busy : bool;           (* FileManager.is_busy                                *)
   stopper : bool;        (* machine.thread_stopper                             *)
-  local : Z;             (* the thread's deep copy                             *)
+  local : Z;             (* the object the thread copies and writes            *)
   file : fileT;          (* <name>.yaml                                        *)
   temp : fileT;          (* _<name>.yaml                                       *)
   crashed : bool }.
@@ -76,14 +76,14 @@ Definition tick (c : cfg) (s : state) : state :=
   | PStop => if stopper s then set_pc s (if fix_flush c then PFinal else PDone) else set_pc s PWait
   | PWait => if dirty s then after_wait s else set_pc s PStop
   | PSpin => after_wait s
-  | PClear => mk PCopy (final s) (data s) false (busy s) (stopper s) (local s) (file s) (temp s) (crashed s)
-  | PCopy => mk POpen (final s) (data s) (dirty s) true (stopper s) (data s) (file s) (temp s) (crashed s)
+  | PClear => mk PCopy (final s) (data s) false (busy s) (stopper s) (data s) (file s) (temp s) (crashed s)
+  | PCopy => mk POpen (final s) (data s) (dirty s) true (stopper s) (local s) (file s) (temp s) (crashed s)
   | POpen => mk PW1 (final s) (data s) (dirty s) (busy s) (stopper s) (local s) (file s)
                 (Some (local s, TEmpty)) (crashed s)
   | PW1 => mk PW2 (final s) (data s) (dirty s) (busy s) (stopper s) (local s) (file s)
-              (match temp s with Some (v, _) => Some (v, THalf) | None => None end) (crashed s)
+              (Some (local s, THalf)) (crashed s)
   | PW2 => mk PReplace (final s) (data s) (dirty s) (busy s) (stopper s) (local s) (file s)
-              (match temp s with Some (v, _) => Some (v, TFull) | None => None end) (crashed s)
+              (Some (local s, TFull)) (crashed s)
   | PReplace => mk (if final s then PDone else PRate) (final s) (data s) (dirty s) false (stopper s)
                    (local s) (temp s) None (crashed s)
   | PRate => set_pc s PStop
@@ -159,7 +159,9 @@ Fixpoint saved (ops : list op) : list Z :=
   | _ :: r => saved r
   end.
 
-Definition last_saved (ops : list op) : option Z := last (map Some (saved ops)) None.
+Definition upd_last (acc : option Z) (o : op) : option Z :=
+  match o with Save v => Some v | _ => acc end.
+Definition last_saved (ops : list op) : option Z := fold_left upd_last ops None.
 
 (* a clean history: no crash, no injected error, nothing handed over after the shutdown request *)
 Fixpoint clean_from (stopped : bool) (ops : list op) : bool :=
@@ -172,7 +174,9 @@ Fixpoint clean_from (stopped : bool) (ops : list op) : bool :=
   | IoError :: _ => false
   end.
 
-Definition no_crash (ops : list op) : bool :=
-  forallb (fun o => match o with Crash => false | _ => true end) ops.
-
 Definition ticks (n : nat) : list op := repeat Tick n.
+
+(* the writer is idle (or asleep) with nothing pending and version v complete on disk *)
+Definition settled (v : Z) (s : state) : Prop :=
+  dirty s = false /\ stopper s = false /\ crashed s = false /\ final s = false /\
+  (pc s = PRate \/ pc s = PStop \/ pc s = PWait) /\ file s = Some (v, TFull).
